@@ -78,12 +78,19 @@ ENGINES = {
     'tdvp2': ('RealTimeEvolution', 'TwoSiteTDVPEngine'),
     'tdvp1': ('RealTimeEvolution', 'SingleSiteTDVPEngine'),
     'expmpo': ('RealTimeEvolution', 'ExpMPOEvolution'),
+    # further simulation classes / boundary conditions (thorough tier, and a share of the quick tier)
+    'idmrg': ('GroundStateSearch', 'TwoSiteDMRGEngine'),  # infinite MPS: environments are part of the resume data
+    'tdcorr': ('TimeDependentCorrelation', 'TEBDEngine'),
+    'tdcorr_bk': ('TimeDependentCorrelationEvolveBraKet', 'TEBDEngine'),
+    'spectral': ('SpectralSimulation', 'TEBDEngine'),
+    'vumps': ('GroundStateSearch', 'TwoSiteVUMPSEngine'),  # resume_run is a documented NotImplementedError: files only
 }
 
 
 def gen_config(seed, tier='quick', family=None):
     wl = random.Random(core.sub_seed(seed, 'config'))
-    fam = family or wl.choice(['dmrg2', 'dmrg2', 'dmrg1', 'tebd', 'tebd', 'qrtebd', 'tdvp2', 'tdvp1', 'expmpo'])
+    fam = family or wl.choice(['dmrg2', 'dmrg2', 'dmrg1', 'tebd', 'tebd', 'qrtebd', 'tdvp2', 'tdvp1', 'expmpo',
+                               'idmrg', 'tdcorr', 'tdcorr_bk', 'spectral', 'vumps'])
     L = wl.choice([4, 6]) if tier == 'quick' else wl.choice([4, 6, 6, 8])
     model = wl.choice(['TFIChain', 'XXZChain'])
     conserve = wl.choice([None, 'best'])
@@ -100,7 +107,10 @@ def gen_config(seed, tier='quick', family=None):
         'extra_measurements': wl.random() < 0.4,
         'seed': seed,
     }
-    if fam.startswith('dmrg'):
+    if fam in ('idmrg', 'vumps'):
+        cfg['L'] = 2
+        cfg['model'] = 'TFIChain'  # gapped (g=1.5): infinite-system runs converge within the few sweeps we do
+    if fam.startswith('dmrg') or fam in ('idmrg', 'vumps'):
         cfg.update({
             'max_sweeps': wl.choice([3, 4, 6]),
             'N_sweeps_check': wl.choice([1, 1, 2]),
@@ -114,7 +124,7 @@ def gen_config(seed, tier='quick', family=None):
             'dt': wl.choice([0.05, 0.1]),
             'N_steps': wl.choice([1, 2]),
             'n_outer': wl.choice([3, 4, 6]),
-            'order': wl.choice([1, 2, 4, '4_opt']) if fam in ('tebd', 'qrtebd') else None,
+            'order': wl.choice([1, 2, 4, '4_opt']) if fam in ('tebd', 'qrtebd', 'tdcorr', 'tdcorr_bk', 'spectral') else None,
             'compression': wl.choice(['SVD', 'variational', 'zip_up']) if fam == 'expmpo' else None,
             'approximation': wl.choice(['I', 'II']) if fam == 'expmpo' else None,
         })
@@ -124,16 +134,19 @@ def gen_config(seed, tier='quick', family=None):
 def build_params(cfg, out_name='results'):
     sim_class, alg = ENGINES[cfg['family']]
     L = cfg['L']
+    fam = cfg['family']
+    bc = 'infinite' if fam in ('idmrg', 'vumps') else 'finite'
+    is_gs = fam.startswith('dmrg') or fam in ('idmrg', 'vumps')
     if cfg['model'] == 'TFIChain':
-        model_params = {'L': L, 'J': 1.0, 'g': 1.5, 'bc_MPS': 'finite', 'conserve': cfg['conserve']}
+        model_params = {'L': L, 'J': 1.0, 'g': 1.5, 'bc_MPS': bc, 'conserve': cfg['conserve']}
         init = {'method': 'lat_product_state', 'product_state': [['up']]}
-        if not cfg['family'].startswith('dmrg'):
+        if not is_gs:
             # quench from a tilted product state is not available without extra ops; use Neel-like in x? keep 'up':
             model_params['g'] = 0.7
     else:
         # DMRG: XY-like regime with a unique ground state; time evolution: Ising-like quench from the Neel state
-        Jz = 0.5 if cfg['family'].startswith('dmrg') else 1.5
-        model_params = {'L': L, 'Jxx': 1.0, 'Jz': Jz, 'hz': 0.0, 'bc_MPS': 'finite', 'conserve': cfg['conserve']}
+        Jz = 0.5 if is_gs else 1.5
+        model_params = {'L': L, 'Jxx': 1.0, 'Jz': Jz, 'hz': 0.0, 'bc_MPS': bc, 'conserve': cfg['conserve']}
         init = {'method': 'lat_product_state', 'product_state': [['up'], ['down']]}
     params = {
         'simulation_class': sim_class,
@@ -146,7 +159,7 @@ def build_params(cfg, out_name='results'):
         'overwrite_output': bool(cfg['preexisting_output']),
     }
     trunc = {'chi_max': cfg['chi'], 'svd_min': 1.0e-10}
-    if cfg['family'].startswith('dmrg'):
+    if is_gs:
         ap = {'trunc_params': trunc, 'max_sweeps': cfg['max_sweeps'], 'N_sweeps_check': cfg['N_sweeps_check'],
               'mixer': cfg['mixer'], 'lanczos_params': {'N_min': 2, 'N_max': 20},
               'max_trunc_err': None}  # small chi on purpose: do not abort on the truncation-error sanity check
@@ -156,15 +169,19 @@ def build_params(cfg, out_name='results'):
             ap['min_sweeps'] = cfg['max_sweeps'] + 1
         if cfg.get('max_hours') is not None:
             ap['max_hours'] = cfg['max_hours']
-        if cfg['family'] == 'dmrg1' and not cfg['mixer']:
-            # single-site DMRG without mixer cannot grow the bond dimension: fine for the property at hand
-            pass
+        if fam == 'vumps':
+            for k in ('mixer', 'mixer_params', 'lanczos_params', 'max_trunc_err'):
+                ap.pop(k, None)
         params['algorithm_params'] = ap
         # measuring at checkpoints while the mixer is on needs canonicalize_before_measurement (documented):
         # psi has non-diagonal Schmidt values then
         params['measure_at_algorithm_checkpoints'] = bool(cfg['measure_at_checkpoints'])
         if cfg['measure_at_checkpoints'] and cfg['mixer']:
-            params['canonicalize_before_measurement'] = True
+            if bc == 'infinite':
+                # canonical_form() of an infinite MPS does not support the non-diagonal Schmidt values of a mixer
+                params['measure_at_algorithm_checkpoints'] = False
+            else:
+                params['canonicalize_before_measurement'] = True
     else:
         ap = {'trunc_params': trunc, 'dt': cfg['dt'], 'N_steps': cfg['N_steps']}
         if cfg['order'] is not None:
@@ -176,6 +193,9 @@ def build_params(cfg, out_name='results'):
             ap['lanczos_params'] = {'N_min': 2, 'N_max': 20}
         params['algorithm_params'] = ap
         params['final_time'] = cfg['dt'] * cfg['N_steps'] * cfg['n_outer']
+        if fam in ('tdcorr', 'tdcorr_bk', 'spectral'):
+            params['operator_t0'] = {'opname': 'Sz', 'i': L // 2}
+            params['operator_t'] = 'Sz'
     if cfg['extra_measurements']:
         params['connect_measurements'] = [['tenpy.simulations.measurement', 'm_onsite_expectation_value',
                                            {'opname': 'Sz'}],
